@@ -11,6 +11,19 @@ ASSUMPTIONS = ["numpy's RandomState is a deterministic function of its seed and 
 
 GENS = ["RandMeth", "IncomprRandMeth", "Fourier"]
 MODELS = [dict(var=1.0, len_scale=2.0), dict(var=2.0, len_scale=2.0), dict(var=1.0, len_scale=3.5), dict(var=0.5, len_scale=1.25)]
+# families of model states realising the four abstract model identifiers of the bookkeeping model: the in-place change between two
+# identifiers may touch ONLY an optional shape argument, ONLY the anisotropy / rotation, or the rescale factor
+FAMILIES = {
+    "gau": ("Gaussian", MODELS),
+    "stable": ("Stable", [dict(var=1.0, len_scale=2.0, alpha=1.5), dict(var=1.0, len_scale=2.0, alpha=0.9),
+                          dict(var=1.0, len_scale=3.5, alpha=1.5), dict(var=0.5, len_scale=2.0, alpha=2.0)]),
+    "matern": ("Matern", [dict(var=1.0, len_scale=2.0, nu=1.5), dict(var=1.0, len_scale=2.0, nu=0.6),
+                          dict(var=2.0, len_scale=2.0, nu=1.5), dict(var=1.0, len_scale=2.0, nu=1.5, rescale=2.0)]),
+    "tpl": ("TPLStable", [dict(var=1.0, len_scale=2.0, hurst=0.5, alpha=1.5), dict(var=1.0, len_scale=2.0, hurst=0.8, alpha=1.5),
+                          dict(var=1.0, len_scale=2.0, hurst=0.5, alpha=0.8), dict(var=1.0, len_scale=2.0, hurst=0.5, alpha=1.5, len_low=0.5)]),
+    "aniso": ("Exponential", [dict(var=1.0, len_scale=2.0, anis=1.0, angles=0.0), dict(var=1.0, len_scale=2.0, anis=0.5, angles=0.0),
+                              dict(var=1.0, len_scale=2.0, anis=0.5, angles=0.7), dict(var=1.0, len_scale=2.0, anis=2.5, angles=-0.4)]),
+}
 
 
 def seed_object(rng, value):
@@ -25,10 +38,11 @@ def seed_object(rng, value):
     return np.int64(value)
 
 
-def make_srf(gen, mid, nug, seed, mode_no, dim):
+def make_srf(gen, mid, nug, seed, mode_no, dim, fam="gau"):
     import gstools as gs
-    kw = dict(MODELS[mid])
-    model = gs.Gaussian(dim=dim, nugget=0.3 if nug else 0.0, **kw)
+    cls, states = FAMILIES[fam]
+    kw = dict(states[mid])
+    model = getattr(gs, cls)(dim=dim, nugget=0.3 if nug else 0.0, **kw)
     if gen == "RandMeth":
         return gs.SRF(model, seed=seed, mode_no=mode_no)
     if gen == "IncomprRandMeth":
@@ -70,8 +84,8 @@ def gen_history(rng, gen, length):
     return ops
 
 
-def run_real(rng, gen, dim, ops, m0, nug0, seed0, mode_no, pos):
-    srf = make_srf(gen, m0, nug0, seed_object(rng, seed0), mode_no, dim)
+def run_real(rng, gen, dim, ops, m0, nug0, seed0, mode_no, pos, fam="gau"):
+    srf = make_srf(gen, m0, nug0, seed_object(rng, seed0), mode_no, dim, fam)
     outs, fresh = [], []
     cur = dict(mid=m0, nug=nug0)
     iso = srf.model.isometrize(pos)
@@ -87,12 +101,18 @@ def run_real(rng, gen, dim, ops, m0, nug0, seed0, mode_no, pos):
             mn = srf.generator.mode_no if gen != "Fourier" else int(srf.generator.mode_no[0])
             fr = None
             if sd is not None and not cur["nug"]:
-                fr = make_srf(gen, cur["mid"], False, int(sd), mn, dim)(pos)
+                fr = make_srf(gen, cur["mid"], False, int(sd), mn, dim, fam)(pos)
             fresh.append(fr)
         elif k == "model":
             cur = dict(mid=o["id"], nug=o["nug"])
-            srf.model.var = MODELS[o["id"]]["var"]
-            srf.model.len_scale = MODELS[o["id"]]["len_scale"]
+            st = dict(FAMILIES[fam][1][o["id"]])
+            st.setdefault("rescale", FAMILIES[fam][1][0].get("rescale", srf.model.rescale) if fam == "matern" else srf.model.rescale)
+            if fam == "matern":
+                st["rescale"] = FAMILIES[fam][1][o["id"]].get("rescale", 1.0)
+            if fam == "tpl":
+                st["len_low"] = FAMILIES[fam][1][o["id"]].get("len_low", 0.0)
+            for name in sorted(st, key=lambda a: (a == "var", a)):    # var last (TPL models: var follows the intensity)
+                setattr(srf.model, name, st[name])
             srf.model.nugget = 0.3 if o["nug"] else 0.0
         elif k == "gen_seed":
             srf.generator.seed = seed_object(rng, o.get("s"))
@@ -128,7 +148,9 @@ def correspondence(ctx):
         m0, nug0 = int(rng.randint(0, len(MODELS))), bool(rng.rand() < 0.4)
         seed0 = None if rng.rand() < 0.15 else int(rng.choice([7, 1000000007, 12]))
         mn = int(rng.choice([16, 24]))
-        cases.append((gen, dim, ops, m0, nug0, seed0, mn, pos))
+        fams = ["gau", "stable", "matern", "tpl"] + (["aniso"] if (dim > 1 and gen != "IncomprRandMeth") else [])
+        fam = str(fams[int(rng.randint(0, len(fams)))]) if h >= 3 else "gau"
+        cases.append((gen, dim, ops, m0, nug0, seed0, mn, pos, fam))
         d = {"op": "gen_history", "model": m0, "nug": nug0, "mode_no": mn, "ops": ops}
         if seed0 is not None:
             d["seed0"] = seed0
@@ -139,12 +161,13 @@ def correspondence(ctx):
     dist.update(calls=0, fresh_compared=0, pairs=0)
     with warnings.catch_warnings():
         warnings.simplefilter("ignore")
-        for (gen, dim, ops, m0, nug0, seed0, mn, pos), r in zip(cases, res):
+        for (gen, dim, ops, m0, nug0, seed0, mn, pos, fam), r in zip(cases, res):
             if isinstance(r, dict) and "error" in r:
                 dis.append({"what": "driver error " + r["error"]})
                 continue
             irng = np.random.RandomState(ctx.seed + 5)
-            outs, fresh = run_real(irng, gen, dim, ops, m0, nug0, seed0, mn, pos)
+            outs, fresh = run_real(irng, gen, dim, ops, m0, nug0, seed0, mn, pos, fam)
+            dist["family:" + fam] = dist.get("family:" + fam, 0) + 1
             if len(outs) != len(r):
                 dis.append({"what": "number of generating calls differs", "ops": ops})
                 continue
@@ -172,12 +195,14 @@ def correspondence(ctx):
                 if bad:
                     break
             if bad:
-                bad.update(ops=ops, init=dict(model=m0, nug=nug0, seed=seed0, mode_no=mn), gen=gen, dim=dim)
+                bad.update(ops=ops, init=dict(model=m0, nug=nug0, seed=seed0, mode_no=mn), gen=gen, dim=dim, family=fam)
                 dis.append(bad)
-            distinct.add((gen, tuple(o["k"] for o in ops)))
+            distinct.add((gen, fam, tuple(o["k"] for o in ops)))
     return {"evaluations": res_k["evaluations"] + dist["calls"], "distinct_nontrivial": res_k["distinct_nontrivial"] + len(distinct),
             "rule": res_k["rule"] + " || histories on real SRF objects (RandMeth, IncomprRandMeth, Fourier): field-level calls with seeds of "
-                    "differing object identity (int, fresh big int, np.int64, None, keep), in-place model changes (incl. nugget on/off), "
+                    "differing object identity (int, fresh big int, np.int64, None, keep), in-place model changes (incl. nugget on/off; model families "
+                    "Gaussian, Stable, Matern, TPLStable, anisotropic+rotated Exponential whose states differ only in an optional shape argument, "
+                    "rescale, len_low, anisotropy or angles), "
                     "generator seed / mode_no setters, reset_seed, direct generator calls; compared: equality pattern of all outputs "
                     "(nugget noise included) against the model's tokens, and each nugget-free output against a freshly built object",
             "samples": [c[2] for c in cases[:2]] + res_k["samples"][:2], "disagreements": dis[:6], "distribution": dist}
